@@ -75,7 +75,7 @@ def behStr (d : DEnv) (s : St) : String :=
     match behaviour d.env s nCb f with
     | .orig => "o"
     | .cb k => s!"c{k % 4}"
-    | .stub => "s"
+    | .stub _ => "s"
     | .unknown => "?")
   "b=" ++ String.intercalate "," bs ++ " n=o,o,o"
 
